@@ -297,6 +297,34 @@ HANDOVER_CALLS = [['preamble', 'p\n', None, 4, None, None],
                   ['file', None], ['meta', {'path': 'h'}, None]]
 
 
+class _SeekableSink(object):
+    """A sink that permits everything a file does (tell / seek / truncate):
+    whatever the writer does with that freedom, what ends up in the stream
+    is the accepted calls' bytes and nothing else."""
+    def __init__(self):
+        import io
+        self._s = io.BytesIO()
+
+    def write(self, b):
+        return self._s.write(b)
+
+    def tell(self):
+        return self._s.tell()
+
+    def seek(self, *a):
+        return self._s.seek(*a)
+
+    def truncate(self, *a):
+        return self._s.truncate(*a)
+
+    def flush(self):
+        pass
+
+    @property
+    def buf(self):
+        return self._s.getvalue()
+
+
 def check_handover(split, how):
     """The writer is handed over after `split` calls: to a deep copy
     (checkpointing), or to another stream by assigning the public `fp`
@@ -307,7 +335,11 @@ def check_handover(split, how):
     calls = HANDOVER_CALLS
     full, _ = spec.serialize(calls, 'utf-8')
     head, _ = spec.serialize(calls[:split], 'utf-8')
-    s1 = AppendOnlyStream()
+    import io
+    real = how.startswith('bytesio')
+    s1 = io.BytesIO() if real else AppendOnlyStream()
+    _val = lambda st: st.getvalue() if hasattr(st, 'getvalue') \
+        else bytes(st.buf)
     w = DiffXWriter(s1, encoding='utf-8')
     try:
         for c in calls[:split]:
@@ -320,21 +352,35 @@ def check_handover(split, how):
             got_new = bytes(s2.buf)
             want_new = full
         else:
-            s2 = AppendOnlyStream()
+            s2 = io.BytesIO() if real else (
+                AppendOnlyStream() if how == 'assign-fp' else _SeekableSink())
             w.fp = s2
+            if how.endswith('then-rejected'):
+                # a rejected call right after the handover (wrong order /
+                # empty content / unknown codec), then the accepted ones
+                for bad in (['raw', 'write_diff', [b''], {}],
+                            ['raw', 'new_file', [], {}]
+                            if split == 0 else
+                            ['raw', 'write_preamble', ['x\n'],
+                             {'encoding': 'bogus-codec'}],
+                            ['raw', 'write_meta', [{}], {}]):
+                    try:
+                        apply_call(w, bad)
+                    except Exception:
+                        pass
             for c in calls[split:]:
                 apply_call(w, c)
-            got_new = bytes(s2.buf)
+            got_new = _val(s2)
             want_new = full[len(head):]
     except Exception as e:
         return [('handover-raised:%s:%s:%s' % (how, type(e).__name__,
                                                site_of(e)), repr(e))]
     v = []
-    if bytes(s1.buf) != head:
+    if _val(s1) != head:
         v.append(('handover:%s:old-stream-changed' % how,
                   'after %d calls the writer was handed over (%s); the '
                   'first stream now holds %d bytes, expected %d'
-                  % (split, how, len(s1.buf), len(head))))
+                  % (split, how, len(_val(s1)), len(head))))
     if got_new != want_new:
         v.append(('handover:%s:new-stream-wrong' % how,
                   'after %d calls (%s): the current stream holds %r..., '
@@ -406,7 +452,8 @@ def OPT_UNITS(tier):
 
 def run_handover_unit():
     acc = Acc()
-    for how in ('deepcopy', 'assign-fp'):
+    for how in ('deepcopy', 'assign-fp', 'assign-fp-then-rejected',
+                'bytesio-assign', 'bytesio-assign-then-rejected'):
         for split in range(0, len(HANDOVER_CALLS) + 1):
             viols = check_handover(split, how)
             acc.evals += 1
